@@ -185,6 +185,24 @@ theorem fc_pushEdge (s : St) (a b : HE) (i : Nat) : (s.pushEdge a b).fc i = if i
 theorem rv_pushEdge (s : St) (a b : HE) (i : Nat) : (s.pushEdge a b).rv i = if i = s.nE then s.nE + 1 else if i = s.nE + 1 then s.nE else s.rv i := by
   unfold rv; rw [H_pushEdge]; split; rfl; split <;> rfl
 
+theorem P_modHE (s : St) (e : Nat) (f : HE → HE) (v : Nat) : (s.modHE e f).P v = s.P v := rfl
+theorem P_setNext (s : St) (e x v : Nat) : (s.setNext e x).P v = s.P v := rfl
+theorem P_setPrev (s : St) (e x v : Nat) : (s.setPrev e x).P v = s.P v := rfl
+theorem P_setFace (s : St) (e x v : Nat) : (s.setFace e x).P v = s.P v := rfl
+theorem P_setOrigin (s : St) (e x v : Nat) : (s.setOrigin e x).P v = s.P v := rfl
+theorem P_setHE (s : St) (e : Nat) (h : HE) (v : Nat) : (s.setHE e h).P v = s.P v := rfl
+theorem P_setVOut (s : St) (w : Nat) (o : Option Nat) (v : Nat) : (s.setVOut w o).P v = s.P v := rfl
+theorem P_setFAdj (s : St) (w : Nat) (o : Option Nat) (v : Nat) : (s.setFAdj w o).P v = s.P v := rfl
+theorem P_pushEdge (s : St) (a b : HE) (v : Nat) : (s.pushEdge a b).P v = s.P v := rfl
+theorem P_pushFace (s : St) (o : Option Nat) (v : Nat) : (s.pushFace o).P v = s.P v := rfl
+theorem P_pushVertex (s : St) (p : Pt) (d : Nat) (o : Option Nat) (v : Nat) :
+    (s.pushVertex p d o).P v = if v = s.nV then p else s.P v := by
+  unfold P pushVertex nV
+  simp only [Array.getD_eq_getD_getElem?, Array.getElem?_push]
+  by_cases h : v = s.pos.size
+  · simp [h]
+  · simp [h]
+
 attribute [local irreducible] modHE setNext setPrev setFace setOrigin setHE setVOut setFAdj pushEdge pushFace pushVertex
 
 /-- symbolic evaluation of a literal instruction list: unfolds `run`, then rewrites sizes and
@@ -204,7 +222,8 @@ macro_rules
                simp only [dst, org_setNext, nxt_setNext, prv_setNext, fc_setNext, rv_setNext, nE_setNext, nF_setNext, nV_setNext, fe_setNext, org_setPrev, nxt_setPrev, prv_setPrev, fc_setPrev, rv_setPrev, nE_setPrev, nF_setPrev, nV_setPrev, fe_setPrev, org_setFace, nxt_setFace, prv_setFace, fc_setFace, rv_setFace, nE_setFace, nF_setFace, nV_setFace, fe_setFace, org_setOrigin, nxt_setOrigin, prv_setOrigin, fc_setOrigin, rv_setOrigin, nE_setOrigin, nF_setOrigin, nV_setOrigin, fe_setOrigin, org_setHE, nxt_setHE, prv_setHE, fc_setHE, rv_setHE, nE_setHE, nF_setHE, nV_setHE, fe_setHE, org_setVOut, nxt_setVOut, prv_setVOut, fc_setVOut, rv_setVOut, org_setFAdj, nxt_setFAdj, prv_setFAdj, fc_setFAdj, rv_setFAdj, org_pushFace, nxt_pushFace, prv_pushFace, fc_pushFace, rv_pushFace, org_pushVertex, nxt_pushVertex, prv_pushVertex, fc_pushVertex, rv_pushVertex, org_pushEdge, nxt_pushEdge, prv_pushEdge, fc_pushEdge, rv_pushEdge, nE_setVOut, nF_setVOut, nV_setVOut, fe_setVOut, nE_setFAdj, nF_setFAdj, nV_setFAdj, fe_setFAdj, nE_pushEdge, nF_pushEdge, nV_pushEdge, fe_pushEdge, nE_pushFace, nF_pushFace, nV_pushFace, fe_pushFace, nE_pushVertex, nF_pushVertex, nV_pushVertex, fe_pushVertex, true_and, and_true, false_and, and_false, ite_true, ite_false,
                  if_true, if_false, Nat.add_left_cancel_iff, Nat.left_eq_add, Nat.add_eq_left,
                  Nat.add_eq_zero_iff, Nat.lt_add_right_iff_pos, Nat.add_lt_add_iff_left, Nat.add_assoc,
-                 Nat.reduceAdd, Nat.reduceEqDiff, Nat.reduceLT, $ls,*]))
+                 Nat.reduceAdd, Nat.reduceEqDiff, Nat.reduceLT, P_setNext, P_setPrev, P_setFace, P_setOrigin,
+                 P_setHE, P_setVOut, P_setFAdj, P_pushEdge, P_pushFace, P_pushVertex, $ls,*]))
 
 /-! ### the link invariant -/
 
